@@ -15,6 +15,21 @@ def Res.finish (fns : List FnDef) (fuel : Nat) : Res → Option Val
   | .stuck => none
   | .running vm _ => runVM fns fuel vm
 
+/-- The hypothesis made false in the way finding K02e shows it to be false in the code: a native primitive
+whose operands have the wrong type records the error somewhere nobody looks and goes on with a placeholder
+(`#<void>` in the engine, `#false` here) instead of leaving the native tier. -/
+def lossyNative (fns : List FnDef) (vm : VM) : StepRes :=
+  let fr := vm.cur
+  match fr.code[fr.ip]? with
+  | some (.prim op) =>
+      match fr.stack.dropLast.getLast?, fr.stack.getLast? with
+      | some a, some b =>
+        match op.apply a b with
+        | some r => .next { vm with cur := { fr with ip := fr.ip + 1, stack := fr.stack.dropLast.dropLast ++ [r] } }
+        | none => .next { vm with cur := { fr with ip := fr.ip + 1, stack := fr.stack.dropLast.dropLast ++ [.bool false] } }
+      | _, _ => .stuck
+  | _ => stepVM fns vm
+
 variable (fns : List FnDef) (native : VM → StepRes) (hN : ∀ vm, native vm = stepVM fns vm)
 include hN
 
